@@ -310,6 +310,9 @@ fn gen_cases(ctx: &Ctx) -> Vec<Case> {
 /// The same line with its operands arriving another way: registers through `.def` aliases and numbers
 /// through `.equ` symbols (path 1), or the whole line as the body of a macro with the operands as
 /// arguments (path 2). What the ISA cannot encode stays unencodable however it is spelled.
+/// number of expression shapes of respell paths 3..
+const COMPUTED_SHAPES: u8 = 12;
+
 fn respell(text: &str, path: u8) -> Option<String> {
     let (mn, rest) = match text.split_once(' ') {
         Some((m, r)) => (m, r),
@@ -344,6 +347,64 @@ fn respell(text: &str, path: u8) -> Option<String> {
             }
             Some(format!("{}{}{}{}\n", prelude, mn, if new_ops.is_empty() { "" } else { " " }, new_ops.join(", ")))
         }
+        p if p >= 3 => {
+            // the same values written as computed expressions: what decides is the value, whichever operator
+            // produced it (odd paths: the expression is also passed through a macro argument)
+            let shape = (p - 3) / 2;
+            let mut new_ops: Vec<String> = vec![];
+            let mut changed = false;
+            let spell = |t: &str| -> Option<String> {
+                let v: i128 = if t == "(-9223372036854775807-1)" { i64::MIN as i128 } else { t.parse().ok()? };
+                if v <= i64::MIN as i128 + 1 || v >= i64::MAX as i128 {
+                    return None;
+                }
+                Some(match shape {
+                    0 => {
+                        let k = -v - 1;
+                        if k < 0 { format!("~({})", k) } else { format!("~{}", k) }
+                    }
+                    1 => format!("{}+0", v),
+                    2 => if v < 0 { format!("0-{}", -v) } else { format!("0+{}", v) },
+                    3 => format!("({})", v),
+                    4 => if v <= 0 { format!("-({})", -v) } else { format!("-(-{})", v) },
+                    5 => format!("{}*1", v),
+                    6 => format!("~(~({}))", v),
+                    7 => format!("{}|0", v),
+                    // right-grouped operands: regrouping them to the left (as a careless re-rendering of a
+                    // macro argument would) gives another value
+                    _ if v.abs() >= 1 << 60 => return None,
+                    8 => format!("{}-(10-4)", v + 6),
+                    9 => format!("{}/(8/4)", v * 2),
+                    10 => format!("{}>>(2>>1)", v * 2),
+                    _ => format!("{}-(1+2)", v + 3),
+                })
+            };
+            for o in ops.iter() {
+                if is_num(o) {
+                    if let Some(t) = spell(o) {
+                        new_ops.push(t);
+                        changed = true;
+                        continue;
+                    }
+                } else if let Some((reg, q)) = o.split_once('+').filter(|(r, q)| ["X", "Y", "Z"].contains(r) && is_num(q)) {
+                    if let Some(t) = spell(q) {
+                        new_ops.push(format!("{}+{}", reg, t));
+                        changed = true;
+                        continue;
+                    }
+                }
+                new_ops.push(o.to_string());
+            }
+            if !changed {
+                return None;
+            }
+            if (p - 3) % 2 == 0 {
+                Some(format!("{} {}\n", mn, new_ops.join(", ")))
+            } else {
+                let params: Vec<String> = (0..new_ops.len()).map(|i| format!("@{}", i)).collect();
+                Some(format!(".macro c04_line\n\t{} {}\n.endm\nc04_line {}\n", mn, params.join(", "), new_ops.join(", ")))
+            }
+        }
         _ => {
             let params: Vec<String> = (0..ops.len()).map(|i| format!("@{}", i)).collect();
             Some(format!(".macro c04_line\n\t{}{}{}\n.endm\nc04_line{}{}\n", mn, if params.is_empty() { "" } else { " " }, params.join(", "), if ops.is_empty() { "" } else { " " }, ops.join(", ")))
@@ -359,6 +420,16 @@ fn run_case(ctx: &Ctx, c: &Case) {
     if always || ctx.tier == Tier::Thorough || fw::hash_str(&c.text) % 4 == 0 {
         run_case_path(ctx, c, 1);
         run_case_path(ctx, c, 2);
+        if ctx.tier == Tier::Thorough {
+            for p in 3..3 + 2 * COMPUTED_SHAPES {
+                run_case_path(ctx, c, p);
+            }
+        } else {
+            // the complement spelling always (the usual way to write a mask), one other shape, one of the two through a macro
+            let h = fw::hash_str(&c.text);
+            run_case_path(ctx, c, 3 + (h % 2) as u8);
+            run_case_path(ctx, c, 3 + 2 * (1 + (h / 2 % (COMPUTED_SHAPES as u64 - 1)) as u8) + ((h + 1) % 2) as u8);
+        }
     }
 }
 
@@ -369,12 +440,17 @@ fn run_case_path(ctx: &Ctx, c: &Case, path: u8) {
     let (src, via) = match path {
         0 => (format!("{}{}\n", h, c.text), ""),
         p => match respell(&c.text, p) {
-            Some(t) => (format!("{}{}", h, t), if p == 1 { "/via-alias-or-symbol" } else { "/via-macro-argument" }),
+            Some(t) => (format!("{}{}", h, t), match p {
+                1 => "/via-alias-or-symbol",
+                2 => "/via-macro-argument",
+                p if (p - 3) % 2 == 0 => "/as-computed-expression",
+                _ => "/as-computed-expression-in-macro-argument",
+            }),
             None => return,
         },
     };
     if path != 0 {
-        ctx.count(if path == 1 { "lines_respelled_via_alias_or_symbol" } else { "lines_respelled_via_macro_argument" }, 1);
+        ctx.count(match path { 1 => "lines_respelled_via_alias_or_symbol", 2 => "lines_respelled_via_macro_argument", _ => "lines_respelled_as_computed_expressions" }, 1);
     }
     let c = &Case { form: c.form, text: c.text.clone(), expect: c.expect.clone(), sig: format!("{}{}", c.sig, via) };
     let out = fw::build_str(&src);
@@ -535,7 +611,7 @@ pub fn run(ctx: &Ctx) -> i32 {
     ctx.exhaustive.store(true, std::sync::atomic::Ordering::Relaxed);
     fw::finish(
         ctx,
-        "per instruction form and legal anchor tuple, one operand at a time leaves its ISA domain: every register r0..r31 in each register position, every number in [lo-300, hi+300] plus ±2^k, ±2^k±1, ±i64::MAX and i64::MIN in each numeric position, operand-kind substitutions, 0..arity-1, arity+1 and arity+2..arity+257 operands, and for every two-operand form the complete cross product every register x every register / boundary value (thorough: two operands out at once, ±70000 windows on 16/22-bit fields); plus a device sweep: every device of the table x every form it has x each operand just outside, just inside and far outside (by 4095..2^32) its field; exhaustive for those windows; every register, cross-product and kind-confusion line (and a quarter of the numeric windows; thorough: all) once more with registers through `.def` aliases and numbers through `.equ` symbols, and once more as the body of a macro with the operands as arguments; distinct_nontrivial = distinct must-reject source lines",
+        "per instruction form and legal anchor tuple, one operand at a time leaves its ISA domain: every register r0..r31 in each register position, every number in [lo-300, hi+300] plus ±2^k, ±2^k±1, ±i64::MAX and i64::MIN in each numeric position, operand-kind substitutions, 0..arity-1, arity+1 and arity+2..arity+257 operands, and for every two-operand form the complete cross product every register x every register / boundary value (thorough: two operands out at once, ±70000 windows on 16/22-bit fields); plus a device sweep: every device of the table x every form it has x each operand just outside, just inside and far outside (by 4095..2^32) its field; exhaustive for those windows; every register, cross-product and kind-confusion line (and a quarter of the numeric windows; thorough: all) once more with registers through `.def` aliases and numbers through `.equ` symbols, once more as the body of a macro with the operands as arguments, and with every number written as a computed expression of the same value (12 shapes: complement, sums, negations, parenthesised, right-grouped differences / quotients / shifts; quick: the complement and one other shape, one of them through a macro argument; thorough: all shapes both ways); distinct_nontrivial = distinct must-reject source lines",
         &[
             "legality = refmodel/isa.rs operand domains (manual transcription)",
             "8-bit immediates written as -128..-1 are accepted as two's complement or rejected (statement silent); ld/st written with a displacement and ldd/std written with increment, decrement or X forms are must-reject (the ISA defines no such form for that mnemonic); `ldd Rd, Y` without displacement is not probed",
